@@ -535,6 +535,16 @@ def gen_scale(rng):
         out.append(sweep(mbi([t_module(rng) for _ in range(n)])))
     out.append(sweep(mbi([t_meminfo(rng) for _ in range(1000)])))
     out.append(sweep(mbi([t_custom(rng) for _ in range(500)] + [t_cmdline(rng)])))
+    # ELF: count * entry size (and index * entry size) at and beyond 2^32 with the two VALID entry sizes - a product computed in
+    # 32 bits wraps to a small number that passes a bound; the tag holds one or two real entries and is followed by a neighbour
+    for es, n in ((40, 0x06666667), (40, 0x0CCCCCCD), (64, 0x04000000), (64, 0x04000001), (40, 0x66666667), (64, 0xFFFFFFFF)):
+        for present in (1, 2):
+            for shndx in (0, 1, n - 1):
+                body = u32(n) + u32(es) + u32(shndx) + b"".join(elf_entry(rng, es, 1) for _ in range(present))
+                out.append(sweep(mbi([tag(9, body, rng=rng), t_cmdline(rng, rstr(rng, 40))])))
+    for es, shndx in ((40, 0x06666667), (64, 0x04000000), (40, 0xFFFFFFFF), (64, 0x03FFFFFF)):
+        body = u32(2) + u32(es) + u32(shndx) + b"".join(elf_entry(rng, es, 1) for _ in range(2))
+        out.append(sweep(mbi([tag(9, body, rng=rng), t_cmdline(rng, rstr(rng, 40))])))
     for ver in (0xFFFFFFFF, 0x80000000, 3):
         out.append(sweep(mbi([tag(17, u32(40) + u32(ver) + rbytes(rng, 40), rng=rng)])))
     for ds in (4096, 0x10000, 0xFFFFFFF8, 0xFFFFFFFF, 0x80000000):
